@@ -34,7 +34,10 @@ def check_equation_array_properties(equation, particle_arrays):
     have the necessary properties.
     """
     p_arrays = dict((x.name, x) for x in particle_arrays)
-    _src, _dest = get_arrays_used_in_equation(equation)
+    # The arrays named by the method arguments and, in addition, the arrays
+    # read by the precomputed symbols (VIJ, HIJ, RHOIJ, ...) of the loop.
+    # This is what the generated code takes the pointers of.
+    _src, _dest = Group([equation]).get_array_names()
     if equation.dest not in p_arrays:
         msg = "ERROR: Equation {eq_name} has invalid dest: '{dest}'".format(
             eq_name=equation.name, dest=equation.dest
